@@ -65,7 +65,7 @@ def parseMsg (n ids : Nat) (toks : List String) : Option Msg :=
     let b ← parseBid (← kv rest "b")
     let v ← (← kv rest "v").toNat?
     if r > 1000 ∨ v ≥ n ∨ (b.getD 0) ≥ ids then none else
-    pure (.vote ⟨t, r, b, v, true⟩)
+    pure (.vote ⟨t, r, b, v, true, v, v⟩)
   | _ => none
 
 def showBid : Bid → String
